@@ -349,10 +349,7 @@ func (p *TransportParameters) readNumericTransportParameter(b []byte, paramID tr
 	case maxDatagramFrameSizeParameterID:
 		p.MaxDatagramFrameSize = protocol.ByteCount(val)
 	case minAckDelayParameterID:
-		mad := time.Duration(val) * time.Microsecond
-		if mad < 0 {
-			mad = math.MaxInt64
-		}
+		mad := saturatingDuration(val, time.Microsecond)
 		p.MinAckDelay = &mad
 	default:
 		return fmt.Errorf("TransportParameter BUG: transport parameter %d not found", paramID)
